@@ -58,7 +58,26 @@ def invariants(st):
 
 
 # ------------------------------------------------------------------------------------------------ E2 spec
+# start states other than the empty one, so that id take-overs between two EXISTING entries and the follow-up bookkeeping are
+# within two further calls: (halves) a remote-only and a local-only pending entry; (linked) a synced pair whose remote side
+# has a pending change next to a local-only pending entry
+def _pfx(oip, linked):
+    l1, l2 = ("/a", "/d/a") if oip else ("o1", "o2")
+    if not linked:
+        return [["update", 1, "F", "o2", "/a", "h1", True, None], ["update", 0, "F", l1, "/a", "h1", True, None]]
+    return [["update", 0, "F", l1, "/a", "h1", True, None], ["set_oid", 0, 1, "o2"], ["finish", 0, 0],
+            ["update", 1, "F", "o2", "/a", "h1", True, None], ["update", 0, "F", l2, "/d/a", "h1", True, None]]
+
+
 def configs(tier):
+    out = _configs(tier)
+    for oip in (False, True):       # same in both tiers: the deeper / "halves" variants were not run to completion (DESIGN 13.7)
+        out.append({"name": "%s_linked_d2" % ("path" if oip else "oid"), "oip": oip, "reduced": False, "depth": 2,
+                    "prefix": _pfx(oip, True)})
+    return out
+
+
+def _configs(tier):
     if tier == "quick":
         return [{"name": "oid_full_d2", "oip": False, "reduced": False, "depth": 2},
                 {"name": "path_full_d2", "oip": True, "reduced": False, "depth": 2},
@@ -123,7 +142,10 @@ class State:
 
 
 def make(cfg):
-    return State(cfg)
+    S = State(cfg)
+    for op in cfg.get("prefix", []):        # non-initial start state (rebuilt identically by every replay)
+        apply(S, op, False)
+    return S
 
 
 def close(st):
